@@ -29,21 +29,15 @@ def tla_tuple_to_list(s):
 # ---------------------------------------------------------------------------
 # C20  tables well-formed, baseline kept
 
-_ENTRY = re.compile(r'e = \[tbl \|-> "([a-z.]+)", key \|-> (<<[0-9, ]*>>), val \|-> (\d+)\]')
+_C20V = re.compile(r'Invariant (\w+) is violated[^:]*:\s*(?:/\\ )?e = \[\s*tbl \|-> "([a-z.]+)",\s*key \|->\s*(<<[0-9, ]*>>),\s*val \|-> (\d+)\s*\]')
 
 
 def _c20_violations(out):
+    """TLC pretty-prints long records over several lines: match on the output with white space collapsed."""
+    flat = re.sub(r"\s+", " ", out)
     res = []
-    cur = None
-    for line in out.splitlines():
-        m = re.search(r"Invariant (\w+) is violated", line)
-        if m:
-            cur = m.group(1)
-            continue
-        m = _ENTRY.search(line)
-        if m and cur:
-            res.append({"invariant": cur, "tbl": m.group(1), "key": tla_tuple_to_list(m.group(2)), "val": int(m.group(3))})
-            cur = None
+    for m in _C20V.finditer(flat):
+        res.append({"invariant": m.group(1), "tbl": m.group(2), "key": tla_tuple_to_list(m.group(3)), "val": int(m.group(4))})
     return res
 
 
@@ -75,8 +69,10 @@ def c20(tier, sc):
     res = run_tlc(sc, d, "TablesProp.tla", "TablesProp.cfg", extra=["-continue"], timeout=600)
     rep.add_tlc("TablesProp", res)
     viols = _c20_violations(res.out)
-    if not res.ok and not viols:
-        raise ToolFailure("TLC did not complete on TablesProp:\n" + res.out[-3000:])
+    announced = len(re.findall(r"Error: Invariant \w+ is violated", res.out))
+    if announced != len(viols):
+        raise ToolFailure("TablesProp: TLC announced %d violations, %d parsed:\n%s" % (announced, len(viols), res.out[-3000:]))
+    tlc_sound(res, "TablesProp")
     n_cur = len(tables["keywords"]) + len(tables["tags"]) + len(tables["attrs"]) + len(tables["events"])
     for v in viols:
         st = c20_entry_status(tables, v["tbl"], v["key"], v["val"])
